@@ -112,7 +112,7 @@ def labelled_grid(shape, opaque_cells=()):
     """grid whose cells all hold pairwise distinct descriptors; cells in opaque_cells get distinct opaque ones.
     Note Box content is ignored by the library's ==, so at most one Box-like label is used per kind."""
     h, w = shape
-    t = [d for d in LABELS_T if d != FLOOR and d[0] != 'Box'] + [box(FLOOR)]
+    t = [d for d in LABELS_T if d[0] != 'Box'] + [box(FLOOR)]
     o = list(LABELS_O)
     ti = oi = 0
     rows = []
